@@ -115,6 +115,13 @@ class Prop(PropBase):
             big = g.standard_normal((2 * L,) + shape[1:])
             if sigs.is_complex(cls):
                 big = big + 1j * g.standard_normal(big.shape)
+            elif cls in ("Signal", "RadioSignal"):
+                # the classes without a dtype requirement carry any dtype: complex, extended and single precision, raw counts
+                kind = [None, "c16", None, "c32", "f16", "c8", None, "f4", "i2"][(var // 2) % 9]
+                if kind in ("c16", "c32", "c8"):
+                    big = (big + 1j * g.standard_normal(big.shape)).astype({"c16": np.complex128, "c32": np.clongdouble, "c8": np.complex64}[kind])
+                elif kind:
+                    big = (big * (100 if kind == "i2" else 1)).astype({"f16": np.longdouble, "f4": np.float32, "i2": np.int16}[kind])
         else:
             big = base
         if layout == "strided":
